@@ -16,12 +16,12 @@ RULE = (
     "(a) every quadrature table enumerated exhaustively (gaussian 1..10, triangular 1,4,8,10,12: moment exactness, "
     "weights, point ranges); (b) single strictly convex faces (3-8 corners; corners on a small circle or planar convex "
     "hull in the gnomonic chart; centre anywhere incl. poles, antimeridian, prime meridian; size classes <=10/30/65/90 "
-    "degrees across) put through a battery: default-rule accuracy vs the exact spherical excess, every drawn "
+    "degrees across) put through a battery: default-rule accuracy vs the exact spherical excess, non-negativity at every drawn "
     "(rule, order), convergence at the highest orders, start-corner / renumbering / rigid-rotation / lonlat-vs-xyz "
     "invariance, additivity under a drawn diagonal split, cached face_areas vs fresh default after a drawn history of "
     "other area calls; (c) closed hull meshes with all faces <=65 degrees: per-face accuracy, face renumbering, 4*pi "
-    "tiling, and equal areas when the same mesh carries Cartesian node coordinates on a sphere of radius 2.5 or 6371229. "
-    "tiling. Non-trivial = face is not a triangle, or touches a pole / the antimeridian, or a non-default order is "
+    "tiling, equal areas when the same mesh carries Cartesian node coordinates on a sphere of radius 2.5 or 6371229, "
+    "and when its node_lon / node_lat are stored in single precision. Non-trivial = face is not a triangle, or touches a pole / the antimeridian, or a non-default order is "
     "used; distinct by case hash."
 )
 EXHAUSTIVE_NOTE = "all 15 quadrature tables are checked completely (finite); faces and meshes are sampled"
